@@ -272,6 +272,17 @@ def check(run):
                     o.update({'tid': tid, 'kind': kind, 'c': o.get('c', cls) if False else (cls if cls not in ('EmptySeq', 'EmptyMap') else {'EmptySeq': 'SeqScalars', 'EmptyMap': 'FlatMap'}[cls]),
                               'fmt': 'absent', 'acc': 'absent', '_v': 'same object, mutated: ' + repr(v)[:160], '_vi': 1})
                     recs.append(o)
+    # the same callables can be bound again after they have served requests (inspection must leave nothing on them)
+    try:
+        app2 = build()
+        Holder.value = {'a': 1}
+        st2, label2, body2 = fetch(app2, '/basic3', 'html', 'absent')
+        if st2 != 200:
+            run.violation('second-application-misbehaves', 'an application built from the same endpoint shapes after the first one '
+                          'served requests answers %s' % st2, {'leg': 'L2', 'status': st2})
+    except Exception as ex:  # noqa
+        run.violation('second-application-cannot-be-built:%s' % type(ex).__name__,
+                      'building the same application again after requests were served raised %r' % (ex,), {'leg': 'L2'})
     acc, rej = tracecheck.validate(run, 'Render_Trace', spec('Render_Trace.tla'), cfgpath('Render_Trace.cfg'), None,
                                    [{k: v for k, v in r_.items() if not k.startswith('_')} for r_ in recs])
     run.traces += len(acc)
